@@ -42,7 +42,7 @@ class C14(Pipeline):
             Gen("RelayGateGen", "RelayGateGen_gate_cover", "bfs", tiers=("quick",), timeout=300),
             Gen("RelayGateGen", "RelayGateGen_retry_cover", "bfs", tiers=("quick", "thorough"), timeout=300),
             Gen("RelayGateGen", "RelayGateGen_fees_cover", "bfs", tiers=("quick", "thorough"), timeout=300),
-            Gen("RelayGateGen", "RelayGateGen_sim", "simulate", num=200, depth=14, tiers=("quick",), timeout=300),
+            Gen("RelayGateGen", "RelayGateGen_sim", "simulate", num=150, depth=14, tiers=("quick",), timeout=300),
             Gen("RelayGateGen", "RelayGateGen_assign_cover_big", "bfs", tiers=("thorough",), timeout=900),
             Gen("RelayGateGen", "RelayGateGen_gate_cover_big", "bfs", tiers=("thorough",), timeout=900),
             Gen("RelayGateGen", "RelayGateGen_sim", "simulate", num=1200, depth=14, tiers=("thorough",), timeout=1200)]
